@@ -8,7 +8,13 @@ Union/Intersect/Sub/Xor is executed by the harness (go/cmd/c05), which appends t
                 EXHAUSTIVELY per call (Props/C05.lean `validateLattice_sound`: a `true` verdict implies the Boolean law
                 at every point of every open unit cell, and nothing is inside outside the square);
   general area  polygons in general position (generator rejects the rest): `EO.validatePoints` on 120 sample points
-                per call that keep a margin of 1/64 from every edge of A, B and R — SAMPLING with a Lean oracle;
+                per call that keep a margin of 1/64 from every edge of A, B and R — SAMPLING with a Lean oracle; the
+                harness adds up to ~60 candidates taken from the RESULT itself (edge midpoints pushed to both sides,
+                vertex averages) so that area only the result has is judged; about a fifth of these calls have a
+                combined region that is PROVABLY empty (`EO.emptyCert`, `C05.emptyCert_sound`: separated operands for
+                Intersect, identical operands for Sub/Xor, a covering rectangle for Sub, an operand without edges) and
+                for them the result must be empty (`EO.validateGeneral`); a call with no judged point is `unjudged`
+                and is not counted as validated;
   biglattice /  LARGE inputs (a few dozen calls per quick run): 66-110 lattice rows / columns listed in descending,
   biggeneral    ascending or shuffled order, staircases and combs with 66-150 steps on [0,N]^2, N = 72..150 (exhaustive
                 cell check, N^2 cells per call); 100-400-gons (regular, perturbed, elliptic, rings), the polygons
@@ -81,11 +87,18 @@ def _summarise(area, tag, triples):
         S["kinds"][kind] = S["kinds"].get(kind, 0) + 1
         if out == "skipped-after-crash":
             continue
+        if verdict is not None and verdict.startswith("unjudged"):
+            S["unjudged"] = S.get("unjudged", 0) + 1  # executed, but nothing was judged: never counted as validated
+            continue
         if verdict is not None and verdict.startswith("valid "):
             j = int(verdict.split()[1])
+            if verdict.endswith("empty-certified"):
+                S["empty_certified"] = S.get("empty_certified", 0) + 1
+                if out.split(" X ")[0] != "R 0":
+                    S["empty_with_contours"] = S.get("empty_with_contours", 0) + 1
             S["programs"] += line.count(" S ") if area == "chain" else 1  # a chain line is several clipper calls
             S["judgements"] += j
-            if out == "R 0":
+            if out.split(" X ")[0] == "R 0":
                 S["empty_results"] += 1
             if j > 0 and _operands_nonempty(line):
                 S["distinct"].add(int.from_bytes(hashlib.md5((area + "|" + line).encode()).digest()[:8], "big"))
@@ -274,6 +287,8 @@ def run(ctx):
         if S["area"].startswith("big"):
             counters["programs_large"] = counters.get("programs_large", 0) + S["programs"]
         counters["empty_results"] += S["empty_results"]
+        for k in ("unjudged", "empty_certified", "empty_with_contours"):
+            counters[k] = counters.get(k, 0) + S.get(k, 0)
         _report(ctx, S, counters)
     ctx.extra["wall_harness_and_streams_s"] = round(time.time() - t1, 1)
     ctx.extra["programs"] = counters["programs"]
@@ -282,6 +297,9 @@ def run(ctx):
     ctx.extra["judgements_general_sample_points"] = counters.get("judgements_general", 0)
     ctx.extra["programs_large_inputs"] = counters.get("programs_large", 0)
     ctx.extra["empty_results"] = counters["empty_results"]
+    ctx.extra["calls_unjudged_not_counted"] = counters.get("unjudged", 0)
+    ctx.extra["sampled_calls_with_certified_empty_region"] = counters.get("empty_certified", 0)
+    ctx.extra["certified_empty_results_that_had_contours"] = counters.get("empty_with_contours", 0)
     ctx.extra["violations_not_listed"] = counters["suppressed"]
     ctx.extra["known_finding_inputs_hit"] = counters.get("known", 0)
     ctx.extra["watchdog_timeouts_not_confirmed"] = counters.get("spurious_timeouts", 0)
